@@ -18,7 +18,7 @@ TRUSTED = [
 ASSUMPTIONS = ["a new pass is recognised by a request that starts again at row 0"]
 RULE = ("cases = (source, n, cs, patch mode incl. generated centres = 2 passes); distinct by that tuple; "
         "non-trivial when n > cs (more than one request per pass)")
-HEADER = "From Verif Require Import Prelude Chunks.\nOpen Scope nat_scope.\n"
+HEADER = "From Verif Require Import Prelude Chunks Writer.\nOpen Scope nat_scope.\n"
 
 
 class ProxyChunk:
@@ -188,6 +188,61 @@ def run(ctx):
         metas.append((idx, dict(probe=(n, cs, k), got=got, want=want)))
         if got != want:
             ctx.fail("c18-probe", "get_probe returned rows %s instead of %s" % (got, want), dict(n=n, cs=cs, k=k), case=idx)
+        idx += 1
+    # ---- Parquet: row groups are the unit of access; the reader must request every row group once, in
+    #      order, only as far as needed for the next chunk, and deliver exactly the chunks of the model
+    #      (Model/Chunks.v: parquet_chunks = chunks of the concatenated row groups, C02_parquet_chunks)
+    import pyarrow as pa
+    import pyarrow.parquet as pq
+    layouts = [(10, 4, 3), (12, 5, 12), (9, 2, 1), (20, 7, 6), (7, 3, 4), (11, 4, 4), (13, 5, 2), (1000, 250, 300), (6, 8, 4)]
+    for (n, cs, rg) in layouts[: ctx.n(6, 9)] + [(rng.randrange(5, 60), rng.randrange(2, 12), rng.randrange(1, 15)) for _ in range(ctx.n(6, 60))]:
+        path = os.path.join(ctx.workdir, "src.pqt")
+        pq.write_table(pa.table({"ra": np.arange(n, dtype="f8"), "dec": np.zeros(n)}), path, row_group_size=rg)
+        groups = [pq.ParquetFile(path).metadata.row_group(i).num_rows for i in range(pq.ParquetFile(path).metadata.num_row_groups)]
+        reqs = []
+        orig = readers.parquet
+
+        class _PF:
+            def __init__(self, p):
+                self._f = orig.ParquetFile(p)
+                self.metadata = self._f.metadata
+
+            def read_row_group(self, i, columns=None):
+                reqs.append(int(i))
+                return self._f.read_row_group(i, columns)
+
+            def close(self):
+                self._f.close()
+
+        class _PQ:
+            ParquetFile = _PF
+        readers.parquet = _PQ
+        perr = None
+        chunks = []
+        try:
+            with readers.ParquetReader(path, ra_name="ra", dec_name="dec", chunksize=cs, degrees=False) as rd:
+                for c in rd:
+                    chunks.append([int(round(x)) for x in c["ra"]])
+        except Exception as e:  # noqa: BLE001 - reading a valid file must not raise
+            perr = e
+        finally:
+            readers.parquet = orig
+            os.unlink(path)
+        if perr is not None:
+            ctx.count(key=("parquet", n, cs, rg), kind="parquet/raised")
+            ctx.fail("c18-raises:%s" % type(perr).__name__, "reading a valid Parquet file (%d rows, row groups of %d, chunk size %d) raised %r "
+                     "after delivering chunks of %s rows" % (n, rg, cs, perr, [len(c) for c in chunks]),
+                     dict(parquet=(n, cs, rg), groups=groups, requests=reqs), case=idx)
+            idx += 1
+            continue
+        lens = [len(c) for c in chunks]
+        flat = [x for c in chunks for x in c]
+        ok_reqs = [r for r in reqs if r < len(groups)]           # the reader probes one index past the end
+        ctx.count(key=("parquet", n, cs, rg), nontrivial=len(groups) > 1 and n > cs, kind="parquet")
+        terms.append("code [c02_parquet_agree %s %s %s; %s; %s]" % (
+            fq.nat(cs), fq.nlist(groups), fq.nlist(lens),
+            fq.b(flat == list(range(n))), fq.b(ok_reqs == list(range(len(groups))))))
+        metas.append((idx, dict(parquet=(n, cs, rg), groups=groups, chunk_lens=lens, requests=reqs)))
         idx += 1
     codes = ctx.shards("Cases_C18", HEADER, terms, shard=100)
     for (i, meta), c in zip(metas, codes):
